@@ -124,7 +124,7 @@ def _replay(rec):
         "valid": bool(p.is_valid),
         "raised": out["raised"] is not None,
         "raised_class": out["raised"],
-        "printed_lines": sorted({e["k"] for i, e in enumerate(events) if e["nprinted"] > (events[i - 1]["nprinted"] if i else 0)}),
+        "printed_lines": sorted({e["k"] for i, e in enumerate(events) if e["nerrmsgs"] > (events[i - 1]["nerrmsgs"] if i else 0)}),
         "stopped": bool(p.stopped),
     }
     exp = {
